@@ -408,6 +408,8 @@ def run(ctx):
     ctx.notes.append(f'C04.d delegation-completeness sites: {n_del}')
     _global_phase_controlled(ctx, repo)
     control_values_representation_rule(ctx, 'C04.g')
+    give_up_values_rule(ctx, 'C04.h')
+    ctx.decided.append('C04.h protocol functions exclude both documented give-up values (None and NotImplemented) of _unitary_/_mixture_/_apply_unitary_ before using a result')
     ctx.decided.append('C04.g stored control values are read element-wise only when they are known to be a ProductOfSums')
 
 
@@ -568,3 +570,45 @@ def control_values_representation_rule(ctx, rid='C04.g'):
             ctx.ob(rid, f'{m.name}.{name}:{txt}:{use}', guarded, '' if guarded else
                    f'`{txt}` is {use} without a dominating isinstance(..., ProductOfSums) test: for sum-of-products control values each element is a joint assignment of all '
                    'controls, not the accepted values of one control qubit', m.rel, n.lineno)
+
+
+# ---------------------------------------------------------------------------------------------------------------------
+# C04.h  `_unitary_`, `_mixture_` and `_apply_unitary_` are documented to give up by returning None *or* NotImplemented.
+# A protocol function that fetches one of them with getattr and uses the result must exclude both.
+def give_up_values_rule(ctx, rid='C04.h'):
+    repo = ctx.repo
+    ctx.rule(rid, 'both give-up values: in cirq.protocols, wherever the result of calling a `_unitary_` / `_mixture_` / `_apply_unitary_` method obtained with getattr(val, name, None) is '
+             'stored in a local, the uses of that local are guarded against NotImplemented and against None (comparisons with both appear in the function for that local) - a None that '
+             'slips through is wrapped into a result such as ((1.0, None),) and has_X answers True for a value without X', floor=8, style='RG')
+    MAGIC = {'_unitary_', '_mixture_', '_apply_unitary_'}
+    for m in sorted(repo.modules.values(), key=lambda x: x.rel):
+        if not m.rel.startswith('cirq-core/cirq/protocols/') or m.rel.endswith('_test.py'):
+            continue
+        for fn in [f for f in ast.walk(m.tree) if isinstance(f, ast.FunctionDef)]:
+            getters = {}
+            for s_ in ast.walk(fn):
+                if isinstance(s_, ast.Assign) and len(s_.targets) == 1 and isinstance(s_.targets[0], ast.Name) and isinstance(s_.value, ast.Call) \
+                        and call_name(s_.value) == 'getattr' and len(s_.value.args) >= 2 and isinstance(s_.value.args[1], ast.Constant) and s_.value.args[1].value in MAGIC:
+                    getters[s_.targets[0].id] = s_.value.args[1].value
+            if not getters:
+                continue
+            for s_ in ast.walk(fn):
+                if not (isinstance(s_, ast.Assign) and len(s_.targets) == 1 and isinstance(s_.targets[0], ast.Name)):
+                    continue
+                used = [c for c in ast.walk(s_.value) if isinstance(c, ast.Call) and isinstance(c.func, ast.Name) and c.func.id in getters]
+                if not used:
+                    continue
+                res = s_.targets[0].id
+                magic = getters[used[0].func.id]
+                # the next assignment to the same local ends the region in which comparisons count
+                later = [a.lineno for a in ast.walk(fn) if isinstance(a, ast.Assign) and a is not s_ and a.lineno > s_.lineno
+                         and any(isinstance(t, ast.Name) and t.id == res for t in a.targets)]
+                end = min(later) if later else 10 ** 9
+                seen = set()
+                for t in ast.walk(fn):
+                    if isinstance(t, ast.Compare) and isinstance(t.left, ast.Name) and t.left.id == res and s_.lineno <= t.lineno < end and len(t.ops) == 1 \
+                            and isinstance(t.ops[0], (ast.Is, ast.IsNot)):
+                        seen.add(ast.unparse(t.comparators[0]))
+                ok = {'NotImplemented', 'None'} <= seen
+                ctx.ob(rid, f'{m.name}.{fn.name}:{magic}->{res}', ok, '' if ok else
+                       f'the result of {magic}() is only compared with {sorted(seen) or "nothing"}: the other documented give-up value is used as if it were a result', m.rel, s_.lineno)
